@@ -15,7 +15,7 @@ static bool huff_check(Archive::AdaptiveHuffmanTree& t, int N, const json& obs, 
 	return true; }
 bool ops_codec(Ctx& c, const json& s, int idx, bool& handled) {
 	OPS_PROLOGUE
-	if (op == "huff_seq") { int N = s["n"]; Archive::AdaptiveHuffmanTree t(N); if (!huff_check(t, N, s["init"], site + "/fresh", where)) return false; int k = 0;
+	if (op == "huff_seq") { int N = s["n"]; Archive::AdaptiveHuffmanTree t(N); if (t.TerminalNodeCount() != (unsigned)N) { Proto::mismatch(site + "/fresh", "terminal-count", where("")); return false; } if (!huff_check(t, N, s["init"], site + "/fresh", where)) return false; int k = 0;
 		for (auto& u : s["seq"]) { ++k; unsigned x = u["x"]; bool ok = !throws([&] { t.UpdateCodeCount(x); }); auto w2 = [&](const std::string& e) { return where("after " + std::to_string(k) + " updates, last " + std::to_string(x) + " " + e); };
 			if (ok != u["ok"].get<bool>()) { Proto::mismatch(site + (x >= (unsigned)N ? "/out-of-range" : "/update"), ok ? "accepted-should-refuse" : "refused-should-accept", w2("")); return false; }
 			if (!huff_check(t, N, u["obs"], site + (ok ? "/update" : "/refused"), w2)) return false; }
